@@ -88,10 +88,19 @@ CHECKS = {
         "Trusted: the harness SPS machine and host model as a reading of sps_low; the generator's termination by construction.",
         "DESIGN.md section 5, C19",
     ),
+    "C07": (
+        "renaming metamorphism + enumerated hygiene probes over the real resolver/checker/interpreter: one resolved program printed under 8 naming/blocks strategies must keep acceptance and behaviour (= reference); capture probes must yield a resolve error at the provider's occurrence",
+        "Binder identity lives in the harness AST; names are chosen per strategy under a legality rule computed on that AST (no captured free variable; block contributions pairwise distinct), so any accept/behaviour "
+        "difference between strategies, or from the reference evaluator, is a scoping defect. The hygiene grid enumerates 20 importer binder forms x 3 depths x provider shapes. Exploration, grid exhaustive.",
+        "Trusted: the harness legality rule for replacement names; the reference evaluator.",
+        "DESIGN.md section 5, C07",
+    ),
     "C08": (
         "invariant monitor over zydeco_utils::graph on every digraph with <=4 nodes (exhaustive) against transitive-closure SCCs, three drain protocols; language-level permutation metamorphism",
         "Every adjacency matrix on 1..4 nodes incl. self-loops and target-only nodes is run through Kosaraju + top()/release() three ways and through obliviate/keep_only; "
-        "each frontier observation is checked against mutual-reachability components and the dependencies-first order. Exhaustive inside the 4-node bound, random to 12 nodes.",
+        "each frontier observation is checked against mutual-reachability components and the dependencies-first order. Language level: every digraph on <=3 (quick) / <=4 (thorough) nodes as a block of "
+        "sealed types (must be accepted, recorded topological order = SCCs with dependencies first, usable) and as a block of values (cycle => diagnostic), cycles through parameters, and generated programs "
+        "whose let-chains are printed as blocks under several permutations (same acceptance and behaviour = reference). Exhaustive inside the stated node bounds, random beyond.",
         "Trusted: Floyd-Warshall closure as reference; only nodes returned by top() are released.",
         "DESIGN.md section 5, C08",
     ),
